@@ -39,7 +39,15 @@ func Main(p Plan) {
 		if strings.HasPrefix(param, "faulty/") {
 			// the file invariants under I/O faults: every directory operation may fail
 			parts := strings.Split(param, "/")
-			plan := crashcheck.FaultPlan{Sticky: len(parts) > 2 && parts[2] == "sticky"}
+			plan := crashcheck.FaultPlan{}
+			for _, f := range parts[2:] {
+				switch f {
+				case "sticky":
+					plan.Sticky = true
+				case "settle":
+					plan.Settle = true
+				}
+			}
 			return crashcheck.RunFaulty(key+"/"+param, crashcheck.Scenarios[parts[1]], crashcheck.Mode{FilesOnly: true}, plan, opts)
 		}
 		return Run(key+"/"+param, Scenarios[param], p.Oracle, opts)
